@@ -41,7 +41,7 @@ fn run_worker(args: &[String], outer_timeout: Duration) -> WorkerEnd {
     // once a death has been attributed to a case, later workers give up on a silent case sooner:
     // the verdict is a violation already and every further hang costs a full stall period
     if DEATHS_ATTRIBUTED.load(Ordering::SeqCst) > 0 && std::env::var("VERIF_STALL_S").is_err() {
-        cmd.env("VERIF_STALL_S", "5");
+        cmd.env("VERIF_STALL_S", "8");
     }
     let mut child = match cmd
         .args(args)
@@ -365,7 +365,7 @@ pub fn replay_case_isolated(
         f.to_string_lossy().to_string(),
     ];
     let stall = env_u64("VERIF_STALL_S", 20);
-    let r = run_worker(&args, Duration::from_secs(stall * 4 + 60));
+    let r = run_worker(&args, Duration::from_secs(stall * 4 + 1200));
     let _ = std::fs::remove_file(&f);
     match r {
         WorkerEnd::Ok(r) => Ok(r.violations),
